@@ -2,7 +2,7 @@
 
 use super::common::*;
 use super::*;
-use crate::dynview::Ctx;
+use crate::dynview::{Ctx, Dyn};
 use crate::engine::*;
 use crate::feed::{gen_shape, SCALES, SHAPES};
 use crate::gen::*;
@@ -103,6 +103,10 @@ impl Prop for C08 {
                 sc.events.insert(at, Ev::F { r: 0 });
             }
         }
+        // one run in eight: the same generic code instantiated at f32
+        if r.chance(0.125) && scale >= 1e-4 && shape as usize % SHAPES.len() != 15 && crate::props::c15::f32_params_ok(&tree) {
+            sc.set_int("f32", 1);
+        }
         sc.trees.push(tree);
         sc.set_int("shape", shape as i64);
         sc
@@ -118,10 +122,59 @@ impl Prop for C08 {
             out.invalid = Some("no tree".into());
             return out;
         }
+        if sc.int("f32").unwrap_or(0) != 0 {
+            // the generic code instantiated at f32 (see C15): moderate magnitudes, default-width ALMA
+            let bad = sc.events.iter().any(|e| match *e {
+                Ev::D { v, .. } => v != 0.0 && !(v.abs() >= 1e-6 && v.abs() <= MAX_MAG),
+                _ => false,
+            });
+            if bad || !crate::props::c15::f32_params_ok(&sc.trees[0]) {
+                out.invalid = Some("f32 mode needs magnitudes in {0} u [1e-6, 1e7] and an ALMA sigma <= 6".into());
+                return out;
+            }
+            out.stats.hit("reach.instantiated_at_f32");
+            run_c08::<f32>(sc, out, 1.0e15)
+        } else {
+            run_c08::<f64>(sc, out, MAX_NODE_INPUT)
+        }
+    }
+
+    fn rule(&self) -> String {
+        "Mode 'stall' (runs below the systematic bound): every wrapper (32 unary views, PFE, EFT) x N in {1..9,16,33,64} x stall length d in {0,1,N,random 0..2N+3}, built directly over Stall(d,Echo): the root's first inner value arrives at delivery d+1, so the documented warm-up table (two-sided: None before, Some from) is asserted in values delivered by the child. Mode 'tree': random trees of depth 1-3 with combinators, stalled leaves and stalled inner nodes; a stand-alone twin of the root's child tells when the root is starved and how many values the child has delivered, so the warm-up table is asserted for every listed root over any inner subtree as well. In a quarter of the runs the replica is replaced by its own clone at 1-3 points (mostly during the warm-up) and the oracles continue on the clone. Oracles after construction and after every event: readiness monotone, every reported value finite, answer bit-identical to the post-construction answer while the child has delivered nothing. Feeds: 14 workload shapes (constant, zeros, ties, zero-sum, volatile-then-flat, monotone, ...), scale 1e-3..1e6, lengths 1..3*(window sum)+40, 10% 1000-4000, thorough 1% 20k-100k. distinct = distinct (topology, event-kind schedule); non-trivial = at least one starved delivery was checked, or the warm-up table was evaluated after the child started delivering. One run in eight (where the feed's magnitudes are 0 or within [1e-6,1e7] and a custom ALMA has sigma <= 6) executes the library's generic code instantiated at f32 instead of f64; the oracles are the same."
+            .into()
+    }
+    fn assumptions(&self) -> Vec<String> {
+        vec![
+            "inputs finite, magnitude 0 or within [1e-3,1e7]; positive feed and positivity-preserving subtrees where Drawdown/LnReturn/divisors occur".into(),
+            "moderate magnitude holds for every node of a chain: a non-finite value is not a finding when the node that produced it had been fed a value beyond 1e100 by its own child (e.g. the standard deviation of a rate of change over a base of 1e-200); counted under skipped.immoderate_intermediate_magnitude. Tiny non-zero values are ordinary inputs".into(),
+            "a panic ends the run and is counted under skipped.panic: crashes belong to C15".into(),
+            "f32 runs: a custom ALMA keeps sigma <= 6 (the library's default): with a narrower Gaussian the weight of the first sample underflows to zero in f32 and the average is 0/0, exactly as it is in f64 beyond sigma ~ 27 - a limit of the parameter range, not of the call schedule; a value beyond 1e15 fed to a node by its own child counts as immoderate there (1e100 in f64)".into(),
+            "'reports from the k-th value' is read as: nothing before the k-th delivered value, a value from the k-th on".into(),
+            "built without debug assertions (the shipped configuration), so a non-finite value is observed instead of being pre-empted by the library's debug_assert".into(),
+        ]
+    }
+    fn must_reach(&self, t: Tier) -> Vec<&'static str> {
+        let mut v = vec!["reach.instantiated_at_f32", "reach.starved_delivery", "reach.ready_after_stall", "reach.became_ready", "oracle.warmup_none", "oracle.warmup_some", "oracle.frozen", "oracle.monotone"];
+        if t == Tier::Thorough {
+            v.push("reach.long_run_20k");
+        }
+        v
+    }
+}
+
+fn lastf<T: crate::dynview::Scalar>(v: &Dyn<T>) -> Result<Option<f64>, PanicInfo> {
+    try_last(v).map(|o| o.map(|x| x.f()))
+}
+fn updf<T: crate::dynview::Scalar>(v: &mut Dyn<T>, x: f64) -> Result<(), PanicInfo> {
+    try_update(v, T::of(x))
+}
+
+/// the scenario against the tree instantiated at scalar type T (outputs are widened to f64 for the oracles)
+fn run_c08<T: crate::dynview::Scalar>(sc: &Scenario, mut out: RunOut, node_limit: f64) -> RunOut {
         let spec = &sc.trees[0];
         let mut h = Fnv::new();
         let mut ctx = Ctx::default();
-        let mut root = match try_build::<f64>(spec, &mut ctx) {
+        let mut root = match try_build::<T>(spec, &mut ctx) {
             Ok(v) => v,
             Err(_) => {
                 out.stats.hit("skip.ctor_rejected");
@@ -132,7 +185,7 @@ impl Prop for C08 {
         let child_spec = &spec.kids[0];
         let unary_like = spec.k.arity() == 1 || matches!(spec.k, K::Pfe | K::Eft);
         let mut child = if unary_like {
-            match try_build::<f64>(child_spec, &mut ctx) {
+            match try_build::<T>(child_spec, &mut ctx) {
                 Ok(v) => Some(v),
                 Err(_) => None,
             }
@@ -147,7 +200,7 @@ impl Prop for C08 {
         if direct_stall {
             out.stats.hit("reach.root_directly_over_stall");
         }
-        let initial = match try_last(&root) {
+        let initial = match lastf(&root) {
             Ok(v) => v,
             Err(_) => {
                 out.stats.hit("skip.panic");
@@ -169,18 +222,18 @@ impl Prop for C08 {
         'ev: for (step, e) in sc.events.iter().enumerate() {
             match *e {
                 Ev::D { v, .. } => {
-                    if try_update(&mut root, v).is_err() {
+                    if updf(&mut root, v).is_err() {
                         out.stats.hit("skip.panic");
                         break 'ev;
                     }
                     deliveries += 1;
                     if let Some(c) = child.as_mut() {
-                        if try_update(c, v).is_err() {
+                        if updf(c, v).is_err() {
                             child = None;
                         }
                     }
                     let child_some = match child.as_ref() {
-                        Some(c) => match try_last(c) {
+                        Some(c) => match lastf(c) {
                             Ok(x) => Some(x.is_some()),
                             Err(_) => None,
                         },
@@ -192,7 +245,7 @@ impl Prop for C08 {
                     } else if child_some.is_none() {
                         starving = false;
                     }
-                    let o = match try_last(&root) {
+                    let o = match lastf(&root) {
                         Ok(o) => o,
                         Err(_) => {
                             out.stats.hit("skip.panic");
@@ -268,7 +321,7 @@ impl Prop for C08 {
                                 out.stats.hit("reach.clone_during_warmup");
                             }
                             // the clone must answer like the original did
-                            match try_last(&root) {
+                            match lastf(&root) {
                                 Ok(o) => {
                                     h.opt(o);
                                     if ready && o.is_none() {
@@ -295,7 +348,7 @@ impl Prop for C08 {
                 Ev::O { k, .. } => {
                     out.stats.add("ev.observe", k as u64);
                     for _ in 0..k {
-                        match try_last(&root) {
+                        match lastf(&root) {
                             Ok(o) => {
                                 h.opt(o);
                                 if let Some(x) = o {
@@ -320,16 +373,16 @@ impl Prop for C08 {
             }
         }
         let _ = kinds;
-        if out.violation.as_ref().map(|v| v.class == "nonfinite").unwrap_or(false) && fed_immoderate_magnitude(spec, &delivered_values(sc, 0), Symptom::NonFinite) {
+        if out.violation.as_ref().map(|v| v.class == "nonfinite").unwrap_or(false) && fed_immoderate_magnitude_t::<T>(spec, &delivered_values(sc, 0), Symptom::NonFinite, node_limit) {
             // the chain itself produced a value beyond 1e100 and fed it to the node that then overflowed
             out.violation = None;
             out.stats.hit("skip.immoderate_intermediate_magnitude");
         }
         if let Some(v) = out.violation.as_mut() {
             if v.class == "nonfinite" {
-                v.key = culprit(spec, &delivered_values(sc, 0), Symptom::NonFinite);
+                v.key = culprit_t::<T>(spec, &delivered_values(sc, 0), Symptom::NonFinite);
             } else if v.class == "readiness_reverted" {
-                v.key = culprit(spec, &delivered_values(sc, 0), Symptom::Reverted);
+                v.key = culprit_t::<T>(spec, &delivered_values(sc, 0), Symptom::Reverted);
             }
         }
         if deliveries >= 20_000 {
@@ -345,26 +398,4 @@ impl Prop for C08 {
         let _ = try_drop(root);
         out.hist = h.0;
         out
-    }
-
-    fn rule(&self) -> String {
-        "Mode 'stall' (runs below the systematic bound): every wrapper (32 unary views, PFE, EFT) x N in {1..9,16,33,64} x stall length d in {0,1,N,random 0..2N+3}, built directly over Stall(d,Echo): the root's first inner value arrives at delivery d+1, so the documented warm-up table (two-sided: None before, Some from) is asserted in values delivered by the child. Mode 'tree': random trees of depth 1-3 with combinators, stalled leaves and stalled inner nodes; a stand-alone twin of the root's child tells when the root is starved and how many values the child has delivered, so the warm-up table is asserted for every listed root over any inner subtree as well. In a quarter of the runs the replica is replaced by its own clone at 1-3 points (mostly during the warm-up) and the oracles continue on the clone. Oracles after construction and after every event: readiness monotone, every reported value finite, answer bit-identical to the post-construction answer while the child has delivered nothing. Feeds: 14 workload shapes (constant, zeros, ties, zero-sum, volatile-then-flat, monotone, ...), scale 1e-3..1e6, lengths 1..3*(window sum)+40, 10% 1000-4000, thorough 1% 20k-100k. distinct = distinct (topology, event-kind schedule); non-trivial = at least one starved delivery was checked, or the warm-up table was evaluated after the child started delivering."
-            .into()
-    }
-    fn assumptions(&self) -> Vec<String> {
-        vec![
-            "inputs finite, magnitude 0 or within [1e-3,1e7]; positive feed and positivity-preserving subtrees where Drawdown/LnReturn/divisors occur".into(),
-            "moderate magnitude holds for every node of a chain: a non-finite value is not a finding when the node that produced it had been fed a value beyond 1e100 by its own child (e.g. the standard deviation of a rate of change over a base of 1e-200); counted under skipped.immoderate_intermediate_magnitude. Tiny non-zero values are ordinary inputs".into(),
-            "a panic ends the run and is counted under skipped.panic: crashes belong to C15".into(),
-            "'reports from the k-th value' is read as: nothing before the k-th delivered value, a value from the k-th on".into(),
-            "built without debug assertions (the shipped configuration), so a non-finite value is observed instead of being pre-empted by the library's debug_assert".into(),
-        ]
-    }
-    fn must_reach(&self, t: Tier) -> Vec<&'static str> {
-        let mut v = vec!["reach.starved_delivery", "reach.ready_after_stall", "reach.became_ready", "oracle.warmup_none", "oracle.warmup_some", "oracle.frozen", "oracle.monotone"];
-        if t == Tier::Thorough {
-            v.push("reach.long_run_20k");
-        }
-        v
-    }
 }
